@@ -48,7 +48,13 @@ def run(ctx):
     for v in viols:
         e = evs[v[0]]
         if v[1] == "Setup":
-            raise vlib.NoVerdict("set-up of a server for class %s failed: %s" % (e["class"], e["setup"]))
+            if e["setup"].startswith("server did not start"):
+                raise vlib.NoVerdict("set-up of a server for class %s failed: %s" % (e["class"], e["setup"]))
+            # the server runs and refuses the set-up's own requests: a plain dataset creation, the insert of one item
+            # (any 128-bit id is an id) - well-formed requests that must succeed
+            ctx.finding("ValidRejected@setup", "ValidRejected@setup: a running server refuses the set-up (create a dataset, insert one item) before class %s: %s"
+                        % (e["class"], e["setup"][:300]), {"event": e})
+            continue
         if v[1] == "SilentSuccess":      # C09's business (reported by its check)
             ctx.notes.append("SilentSuccess@%s belongs to C09" % e["class"])
             continue
